@@ -175,9 +175,13 @@ def run(ctx):
     import worlds, shutil
     e2e = {"p/p.go": "package p\n\n// T is annotated.\n// @immutable\n// @constructor NewT\ntype T struct{ a, b int }\n\nfunc NewT() *T { return &T{} }\n\n"
                      "func f(t *T) {\n\t// @ignore IMM01\n\tt.a = 1; t.b = 2\n\tt.a = 3; t.b = 4\n\t// @ignore IMM\n\tt.a++; t.b++\n\tt.a = 5 // @ignore IMM01\n}\n\n"
-                     "var xs = []T{\n\t// @ignore CTOR01\n\tT{a: 1}, T{a: 2},\n\tT{a: 3}, T{a: 4},\n}\n"}
+                     "var xs = []T{\n\t// @ignore CTOR01\n\tT{a: 1}, T{a: 2},\n\tT{a: 3}, T{a: 4},\n}\n\n"
+                     "// Mock is for tests.\n// @testonly\nfunc Mock() int { return 1 }\n\n// H helps.\ntype H struct{ n int }\n\n// @testonly\nfunc (h *H) Reset() { h.n = 0 }\n\n"
+                     "func g(h *H) { // @ignore TONL\n\t_ = Mock()\n\th.Reset()\n}\n\nfunc k(h *H) { _ = Mock() // @ignore ALL\n\th.Reset()\n}\n"}
     want = {("p/p.go", 12, 11, "IMM01"), ("p/p.go", 13, 2, "IMM01"), ("p/p.go", 13, 11, "IMM01"), ("p/p.go", 15, 9, "IMM03"),
-            ("p/p.go", 21, 11, "CTOR01"), ("p/p.go", 22, 2, "CTOR01"), ("p/p.go", 22, 11, "CTOR01")}
+            ("p/p.go", 21, 11, "CTOR01"), ("p/p.go", 22, 2, "CTOR01"), ("p/p.go", 22, 11, "CTOR01"),
+            # an inline comment on a func header line covers that LINE only: the body below is decided position by position
+            ("p/p.go", 36, 6, "TONL02"), ("p/p.go", 37, 2, "TONL03"), ("p/p.go", 41, 2, "TONL03")}
     ed = lib.scratch_dir()
     eroot = os.path.join(ed, "m")
     worlds.write_sources(eroot, e2e)
